@@ -137,3 +137,20 @@ Definition kernel_run (fuelg fuel : nat) (l1 maxKB start stop : N) (sieving_prim
       | Some result => Some (flat_map (fun r => surviving (fst r) (snd r)) result)
       end
   end.
+
+(** the model kernel as a total function of the interval (fuel computed from the geometry): what Erat delivers to its
+    clients for [start, stop] under the configuration (l1, maxKB) *)
+Definition erat_model (l1 maxKB start stop : N) : list N :=
+  let a := Config.initAlgorithms l1 maxKB start stop in
+  let fuelg := (N.to_nat ((stop - Config.a_segLow a) / (30 * Config.a_sieveSize a)) + 2)%nat in
+  match EratGeom.segments fuelg l1 maxKB start stop with
+  | None => []
+  | Some l =>
+      let fuel := N.to_nat (3 * fold_right N.max 0 (map EratGeom.s_bytes l) + 4) in
+      match sieve_loop fuel eratSmallSteps stop
+              (map (fun sg => {| k_low := EratGeom.s_low sg; k_size := EratGeom.s_bytes sg; k_high := EratGeom.s_high sg |}) l)
+              (Primes.primes_between 7 (N.sqrt stop)) [] with
+      | None => []
+      | Some result => filter (fun n => start <=? n) (flat_map (fun r => surviving (fst r) (snd r)) result)
+      end
+  end.
